@@ -184,7 +184,7 @@ func raceSample(c *fw.Ctx, jobs []job) {
 	want := 2500
 	step := len(jobs)/want + 1
 	for i, j := range jobs {
-		if strings.HasPrefix(j.src, "gen-") && i%step != 0 {
+		if (strings.HasPrefix(j.src, "gen-") || strings.HasPrefix(j.src, "gadget-")) && i%step != 0 {
 			continue
 		}
 		recs = append(recs, fmt.Sprintf("%s %s roots=%s", sysName(j.u.Sys), j.u.encode(), encRoots(j.roots)))
